@@ -37,7 +37,7 @@ impl WorkspaceGraph {
                 ty::Path(p) => {
                     graph.add_edge(idx, node_map[&p.did], ());
                 }
-                ty::Vec(ty) | ty::Set(ty) => {
+                ty::Vec(ty) | ty::Set(ty) | ty::Arc(ty) => {
                     visit(graph, idx, node_map, ty);
                 }
                 ty::Map(ty1, ty2) => {
